@@ -501,6 +501,20 @@ fn rgb_probe_set(pal: &Pal, xc: &[(usize, Rgb)]) -> Vec<u32> {
 fn main_check(ctx: &Ctx) -> Outcome {
     quiet_panics();
     let mut out = Outcome::default();
+    // the functions under test must not consult the environment: a few representative inputs under a cleared and two
+    // hostile settings of the colour-related variables (before any worker thread exists)
+    fn env_digest() -> Vec<String> {
+        { let pal = anstyle_lossy::palette::VGA; [(0u8, 0u8, 0u8), (255, 255, 255), (1, 22, 39), (200, 30, 30), (128, 128, 128), (0, 62, 60), (248, 248, 248)].iter().map(|&(r, g, b)| format!("{:?} {:?}", anstyle_lossy::rgb_to_xterm(RgbColor(r, g, b)), anstyle_lossy::rgb_to_ansi(RgbColor(r, g, b), pal))).chain((0..=255u8).step_by(17).map(|i| format!("{:?} {:?}", anstyle_lossy::xterm_to_rgb(Ansi256Color(i), pal), anstyle_lossy::xterm_to_ansi(Ansi256Color(i), pal)))).collect::<Vec<String>>() }
+    }
+    if let Err(m) = vexplore::util::env_independence(env_digest) {
+        out.findings.push(Finding {
+            system: "anstyle_lossy conversions".into(),
+            clause: "environment-dependence".into(),
+            case: vec!["representative inputs".into()],
+            message: m.chars().take(900).collect(),
+            replay: serde_json::json!({"kind":"env"}),
+        });
+    }
     let quick = ctx.quick();
     let col = Collector::new(3);
     let xc = xterm_cands();
@@ -647,6 +661,7 @@ fn replay(v: &serde_json::Value) -> Result<(), String> {
             let env = Env::new(&pal, &xc);
             eval(op, &env, v["input"].as_u64().ok_or("missing input")? as u32, true).map(|_| ()).map_err(|(c, m)| format!("{c}: {m}"))
         }
+        "env" => Err("environment-dependence findings are replayed by re-running the check".into()),
         k => Err(format!("unknown replay kind {k}")),
     }
 }
